@@ -1420,6 +1420,15 @@ class Frame(object):
             return Sym(path, nonnull=True)          # function / class of an imported module (copy.copy, hashlib.new ...)
         if isinstance(base, Sym) and node.attr in base.attrs:
             return base.attrs[node.attr]
+        if self.sc.extended and isinstance(base, Const) and isinstance(base.value, Enum):
+            # <enum member>.<method> read as a VALUE (stored in a table, called later): still opaque by its text, but it remembers
+            # the method and the receiver so that calling it can be followed (extended scenarios only)
+            for eci in self.prog.classes_by_name.get(base.value.cls, []):
+                mfi = eci.find_method(node.attr)
+                if mfi is not None and eci.find_prop(node.attr) is None and eci.find_plain_prop(node.attr) is None:
+                    bm = Sym(path, nonnull=True)
+                    bm.method = (mfi, base)
+                    return bm
         if isinstance(base, ClassV):
             ci = base.ci
             av = ci.find_attr(node.attr)
@@ -2201,6 +2210,10 @@ class Frame(object):
                 # a local (not a parameter such as `cls`) bound to a class (k = A if c else B; k()): the call constructs that class
                 record(callee.ci.name)
                 return self._construct(callee.ci, args, kwargs, st, node)
+            if getattr(callee, 'method', None) is not None:
+                r = self._call_bound(callee, args, kwargs, st, node, record)
+                if r is not None:
+                    return r
             if isinstance(callee, Sym) and callee.text != n and \
                     (re.match(r'^[\w.()<>#]+$', callee.text) or (re.match(r'^[A-Za-z_][\w.]*\(.*\)$', callee.text) and _balanced(callee.text))):
                 # a local that holds a callable value (bound method, function reference, looked-up class): the call is a call of that value
@@ -2362,6 +2375,10 @@ class Frame(object):
             record(n)
             return Sym('%s(%s)' % (n, self._argtext(args, kwargs)))
         fv = self.ev(func, st, quiet=True)
+        if getattr(fv, 'method', None) is not None:
+            r = self._call_bound(fv, args, kwargs, st, node, record)
+            if r is not None:
+                return r
         if isinstance(fv, ClassV):          # (a or B)() / (A if c else B)() once the callee expression is decided to be a class
             record(fv.ci.name)
             return self._construct(fv.ci, args, kwargs, st, node)
@@ -2402,6 +2419,19 @@ class Frame(object):
         it = render(args[1])
         st.bound[bname] = it
         return EachV(bname, '%s if %s' % (it, cond), [Sym(bname)])
+
+    def _call_bound(self, bm, args, kwargs, st, node, record):
+        """Call of a remembered bound method value (see ev_Attribute): a helper outside the reference vocabulary is followed."""
+        from .vocab import FUNCTIONS as _VOCAB
+        mfi, recv = bm.method
+        if mfi.name in _VOCAB:
+            return None
+        decs = [dotted(d) for d in mfi.node.decorator_list]
+        if any(d not in ('staticmethod', 'classmethod') for d in decs):
+            return None
+        record(bm.text)
+        selfv = None if 'staticmethod' in decs else (recv if 'classmethod' not in decs else ClassV(mfi.cls))
+        return self._maybe_inline(mfi, selfv, args, kwargs, st, node, force=True)
 
     def _argtext(self, args, kwargs):
         parts = [render(a) for a in args] + ['%s=%s' % (k, render(v)) for k, v in kwargs.items()]
